@@ -786,12 +786,25 @@ def exhaustive_cases(maxlen):
 # (a freed code object's address is reused by the next one), and one function with more than 256
 # local variables whose captured variable needs an EXTENDED_ARG in the prologue
 
-def _wide(kind):
-    body = "".join(f"    v{i} = {i}\n" for i in range(300))
+def _wide(kind, nlocals=300, captured=None):
+    """a function of `kind` with `nlocals` locals v0.. whose local number `captured` (default: the last)
+    is captured by a lambda, i.e. is a cell: the prologue has `MAKE_CELL <captured>`"""
+    captured = nlocals - 1 if captured is None else captured
+    body = "".join(f"    v{i} = {i}\n" for i in range(nlocals))
     tail = {"ag": "    yield k()\n", "co": "    await tok()\n    return k()\n",
             "gc": "    yield 'tok'\n    return k()\n"}[kind]
     head = {"ag": "async def f():\n", "co": "async def f():\n", "gc": "@types.coroutine\ndef f():\n"}[kind]
-    return head + body + "    k = lambda: v299\n" + tail
+    return head + body + f"    k = lambda: v{captured}\n" + tail
+
+
+def _manyfree(kind, nfree):
+    """a function of `kind` closing over `nfree` variables of its maker: `COPY_FREE_VARS <nfree>`"""
+    outer = "".join(f"    w{i} = {i}\n" for i in range(nfree))
+    use = " + ".join(f"w{i}" for i in range(nfree))
+    inner = {"ag": f"    async def f():\n        yield {use}\n",
+             "co": f"    async def f():\n        await tok()\n        return {use}\n",
+             "gc": f"    @types.coroutine\n    def f():\n        yield 'tok'\n        return {use}\n"}[kind]
+    return "def mk():\n" + outer + inner + "    return f\nf = mk()\n"
 
 
 CODE_TEMPLATES = {
@@ -807,8 +820,16 @@ CODE_TEMPLATES = {
     "gc-free": "def mk():\n    t = [0]\n    @types.coroutine\n    def f():\n        t[0] += 1\n        yield 'tok'\n    return f\nf = mk()\n",
     "gc-wide-cell": _wide("gc"),
 }
+# operands of the prologue instructions around the value of the RETURN_GENERATOR opcode itself (75 in
+# CPython 3.12): the captured variable is local number 74 / 75 / 76, or there are 74 / 75 / 76 free variables
+for _k in ("ag", "co", "gc"):
+    for _n, _c in ((75, 74), (76, 75), (77, 75), (77, 76)):
+        CODE_TEMPLATES[f"{_k}-cell{_c}-of-{_n}"] = _wide(_k, _n, _c)
+    for _n in (74, 75, 76):
+        CODE_TEMPLATES[f"{_k}-free{_n}"] = _manyfree(_k, _n)
 CODE_SEQUENCE = ["ag-plain", "ag-free", "ag-cell", "ag-two-cells-free", "co-plain", "ag-free", "ag-plain", "co-cell",
                  "gc-free", "ag-two-cells-free", "ag-cell", "ag-plain", "ag-wide-cell", "co-wide-cell", "gc-wide-cell"]
+CODE_SEQUENCE += [n for n in CODE_TEMPLATES if "-cell7" in n or "-free7" in n]
 
 
 def code_stream(ctx, rounds, upto=None):
